@@ -153,7 +153,8 @@ class Gen:
                 return "disable %d" % tgt
             kind = self.handles.get(tgt)
             if kind == "timer":
-                return "setdl %d %d" % (tgt, 2 * self.r.randrange(0, self.p["max_phase"] + 2))
+                # set_deadline takes effect with the next update(): the two are generated as a pair
+                return "setdl %d %d\nupdate %d" % (tgt, 2 * self.r.randrange(0, self.p["max_phase"] + 2), tgt)
             if kind == "comp":
                 return "setint %d %d %d %d" % (tgt, self.r.randrange(0, 3), self.r.choice([0, 1, 2, 3]), self.r.choice([0, 1, 2]))
             return "update %d" % tgt
@@ -181,7 +182,7 @@ class Gen:
             if k < 0.5:
                 a = self.handle_op(self_h=h)
                 if a:
-                    acts.append(a)
+                    acts += a.split("\n")
             elif k < 0.85:
                 a = self.cause_action()
                 if a:
@@ -235,7 +236,7 @@ class Gen:
             elif k < 0.88:
                 a = self.handle_op()
                 if a:
-                    body.append("C " + a)
+                    body += ["C " + x for x in a.split("\n")]
             else:
                 ins, h = self.insert_actions()
                 body += ["C " + a for a in ins]
